@@ -187,7 +187,7 @@ func (c *Ctx) ord7() {
 		il := p.Index(0, func(e *pathx.Event) bool { return persistenceOp(e) == "Load" })
 		if ih >= 0 {
 			okID := il >= 0 && il < ih && len(p.Events[il].Args) == 2 && isK(p.Events[il].Args[1], c.constInt("clientIDKey")) &&
-				len(p.Events[ih].Args) == 4 && p.Events[ih].Args[3] == pathx.ResultAt(p.Events[il].Result, 0)
+				argIs(p.Events[ih].Args, pathx.ResultAt(p.Events[il].Result, 0))
 			if okID {
 				if n, k := nilResult(p, il, ih); !n || !k {
 					okID = false
@@ -780,7 +780,7 @@ func (c *Ctx) ord13() {
 					}
 					// the baseline: a len(c.peek) evaluated in this very iteration, before the Peek
 					if call, ok := strip(k.Y).(*ssa.Call); ok {
-						if _, isLen := builtinCall(call, "len"); isLen {
+						if arg, isLen := builtinCall(call, "len"); isLen && roleKey(arg) == "Client.peek" {
 							for j, b := range p.Blocks {
 								if b == call.Block() && p.BlockEv[j] <= ip {
 									progress = true
@@ -885,6 +885,10 @@ func (c *Ctx) ord14() {
 		// C10 is about ReadSlices and the writers; BigMessage.ReadAll (F14) is C13's
 		fns = fns[:len(fns)-1]
 	}
+	if c.S.Property == "C18" {
+		// C18 is about connection set-up: the wait for CONNACK
+		fns = []string{"(*Client).handshake"}
+	}
 	if c.S.Property == "C06" {
 		// C06 is about the packet reader tolerating progress-making expiries
 		fns = []string{"(*Client).peekPacket", "(*Client).discard"}
@@ -908,6 +912,7 @@ func (c *Ctx) ord14() {
 				continue
 			}
 			armed := false // a deadline was set since the last blocking call
+			armedDir := ""
 			buffered := false
 			var bufferedGE ssa.Value // Buffered() >= this value is known
 			seenIO := 0
@@ -924,6 +929,7 @@ func (c *Ctx) ord14() {
 							armed = false // time.Time{} disarms
 						} else {
 							armed = true
+							armedDir = e.Method.Name()
 						}
 					case isBlockingIO(e) && isStd(e, "(*bufio.Reader).Discard") && len(e.Args) == 2 && isLenCall(e.Args[1]):
 						// skipping what was just peeked never waits
@@ -933,6 +939,10 @@ func (c *Ctx) ord14() {
 						switch {
 						case name == "(*Client).peekPacket" && seenIO == 1 && p.Start == fn.Blocks[0]:
 							a.pass() // idle wait for the next packet
+						case armed && armedDir == "SetWriteDeadline" && !isWriteIO(e):
+							a.fail(p, i, "%s is a read, but the deadline armed before it is a write deadline: the wait for the broker's bytes has no bound although PauseTimeout is set", strings.TrimSpace(DescribeEvent(c.P, e)))
+						case armed && armedDir == "SetReadDeadline" && isWriteIO(e):
+							a.fail(p, i, "%s is a write, but the deadline armed before it is a read deadline: a broker that stops reading blocks the client beyond PauseTimeout", strings.TrimSpace(DescribeEvent(c.P, e)))
 						case armed || buffered && !needsAmount(e) || bufferedGE != nil && amountOf(e) == bufferedGE:
 							a.pass()
 						default:
@@ -1045,6 +1055,20 @@ func isLenCall(v ssa.Value) bool {
 func isParamNamed(v ssa.Value, name string) bool {
 	p, ok := strip(v).(*ssa.Parameter)
 	return ok && p.Name() == name
+}
+
+// argIs: v is one of the arguments (a later parameter does not move the identity).
+func argIs(args []ssa.Value, v ssa.Value) bool {
+	for _, a := range args {
+		if a == v && v != nil {
+			return true
+		}
+	}
+	return false
+}
+
+func isWriteIO(e *pathx.Event) bool {
+	return isInvoke(e, "net.Conn", "Write") || (e.Callee != nil && stdName(e.Callee) == "(*net.Buffers).WriteTo")
 }
 
 func isBlockingIO(e *pathx.Event) bool {
